@@ -5,11 +5,15 @@
  "properties": {"C16": "contract", "C19": "safety"},
  "mode": "harness",
  "link_repo": ["map.c"],
- "unwind": 5, "unwindset": ["mapinit.0:33"],
+ "unwind": 5, "unwindset": ["mapinit.0:33", "keyindex.0:5", "harness.0:4", "harness.1:4", "harness.2:4", "harness.3:4", "harness.4:4", "harness.5:4", "want_decl.0:4", "want_tag.0:4"],
  "cflags": ["-DVERIF_OWN_XMALLOC"],
+ "variants": {"mixed": ["-DV_BD=0x115", "-DV_BT=0x0a3", "-DV_REV=0"],
+              "all":   ["-DV_BD=0x1ff", "-DV_BT=0x1ff", "-DV_REV=1"],
+              "split": ["-DV_BD=0x1c0", "-DV_BT=0x007", "-DV_REV=0"]},
+ "canary_variant": "all",
  "cbmc_flags": ["--memory-leak-check"],
  "kind": "bounded",
- "bound": "file scope + two nested block scopes; three names 'a', 'ah', 'ba' that share the home slot of the 32-slot table ('a' is a prefix of 'ah', 'ba' differs from 'ah' in bytes only); any subset of the 9 (scope, name) pairs bound as ordinary identifier and any subset as tag, entered in either name order; optionally one name re-bound in the innermost scope; one lookup before and one after each scope exit",
+ "bound": "file scope + two nested block scopes; three names 'a', 'ah', 'ba' that share the home slot of the 32-slot table ('a' is a prefix of 'ah', 'ba' differs from 'ah' in bytes only); three binding configurations, one CBMC run each (mixed: ordinary a,ba / ah / ba and tags a,ah / ba / ah in file / outer / inner scope; all: every name bound in both name spaces in every scope, entered in reverse order; split: ordinary identifiers only in the inner scope, tags only at file scope); symbolic: the looked-up name, the scope the lookup starts in, recurse, optionally one name re-bound in the innermost scope; one lookup before and one after each scope exit",
  "timeout": 300, "replay": false,
  "assumes": ["scope.c is run together with the REAL map.c (FNV-1a hash, linear probing, memcmp, malloc/free); only xmalloc/xreallocarray are stand-ins (do not fail)",
              "PRE of delscope (from its call sites: every delscope in stmt.c/decl.c closes a scope obtained from mkscope): s is not the file scope; the file scope, a static object, is never deleted",
@@ -46,7 +50,13 @@ xreallocarray(void *buf, size_t n, size_t m)
 	void *p;
 	__CPROVER_assert(buf == 0 && n == 32, "scope tables are created with 32 slots and do not grow with <= 3 names");
 	__CPROVER_assume(n == 32);
-	p = malloc(32 * m);
+	/* typed allocations: CBMC then models the tables as arrays of structs / pointers instead of byte arrays */
+	if (m == sizeof(struct mapkey))
+		p = malloc(32 * sizeof(struct mapkey));
+	else {
+		__CPROVER_assert(m == sizeof(void *), "map.c allocates a key table and a value table");
+		p = malloc(32 * sizeof(void *));
+	}
 	__CPROVER_assume(p != 0);
 	return p;
 }
@@ -100,7 +110,8 @@ harness(void)
 	static struct block b0, b1; static struct switchcases sw;
 
 	__CPROVER_assume(in_from < 3 && in_name < 3 && in_name2 < 3 && in_binddecl < 512 && in_bindtag < 512);
-	g_bd = in_binddecl; g_bt = in_bindtag;
+	__CPROVER_assume(in_binddecl == V_BD && in_bindtag == V_BT && in_rev == V_REV);
+	g_bd = V_BD; g_bt = V_BT;                  /* compile-time case split: the tables then have constant contents up to the re-binding */
 	__CPROVER_assume(!in_redecl || BIT(g_bd, 2, in_name));
 	__CPROVER_assume(!in_retag || BIT(g_bt, 2, in_name));
 	filescope.breaklabel = &b0; filescope.continuelabel = &b1; filescope.switchcases = &sw;
@@ -116,7 +127,7 @@ harness(void)
 		if (BIT(g_bd, i, n)) scopeputdecl(sc[i], &dd[i][n]); \
 		if (BIT(g_bt, i, n)) scopeputtag(sc[i], nm[n], &tt[i][n]); } while (0)
 	for (i = 0; i < 3; i++) {
-		if (in_rev) { PUTS(i, 2); PUTS(i, 1); PUTS(i, 0); }
+		if (V_REV) { PUTS(i, 2); PUTS(i, 1); PUTS(i, 0); }
 		else { PUTS(i, 0); PUTS(i, 1); PUTS(i, 2); }
 	}
 	for (n = 0; n < 3; n++)
@@ -159,6 +170,6 @@ harness(void)
 	if (filescope.decls.len) mapfree(&filescope.decls, 0);
 	if (filescope.tags.len) mapfree(&filescope.tags, 0);
 #ifdef VERIF_CANARY
-	__CPROVER_assert(!(in_from == 2 && in_recurse && BIT(g_bd, 0, in_name) && !BIT(g_bd, 1, in_name) && !BIT(g_bd, 2, in_name) && in_name == 1 && BIT(g_bd, 2, 0) && BIT(g_bd, 2, 2)), "CANARY");
+	__CPROVER_assert(!(in_from == 2 && in_recurse && in_name == 1 && in_redecl && in_name2 == 2), "CANARY");
 #endif
 }
